@@ -262,7 +262,14 @@ func refBuiltin(name string, recv Val, args []Val) refOut {
 		}
 	case VFloat:
 		f := recv.F
-		if math.Abs(f) > 1e15 {
+		switch name {
+		case "int", "ceil", "floor", "round":
+			// a float that has no integer of the 64-bit range near it (NaN, an infinity, 1e19) cannot be converted
+			if f != f || math.Abs(f) >= 9.2e18 {
+				return rErr()
+			}
+		}
+		if f != f || math.Abs(f) > 1e15 {
 			return rUnspec()
 		}
 		switch name {
